@@ -52,6 +52,11 @@ def configs(tier):
         else:
             c["depth"] = 8 if c["engine"] == "joblib" else 3
             c["max_states"] = 1500 if c["engine"] == "joblib" else 150
+    # harvesters that keep their full dataset lazily (dask-backed, reading
+    # from the file on demand)
+    cs.append({"name": "lazy", "engine": "h5netcdf", "chunks": 1,
+               "depth": 2 if tier == "quick" else 3,
+               "max_states": 30 if tier == "quick" else 150})
     return cs
 
 
@@ -141,7 +146,8 @@ class World:
         import xyzpy as xyz
 
         r = xyz.Runner(self.fs[version], var_names="out")
-        return xyz.Harvester(r, data_name=self.path, engine=self.cfg["engine"])
+        return xyz.Harvester(r, data_name=self.path, engine=self.cfg["engine"],
+                             chunks=self.cfg.get("chunks"))
 
     def val(self, ver, a, b, c):
         return xfn.expected("num", dict(a=a, b=b, c=5 if c is None else c), ver)
